@@ -155,6 +155,8 @@ var c10Cmds = []c10Cmd{
 	{[]string{"report", "totals"}, 0, 1, ""},
 	{[]string{"lint", "food.yaml"}, 0, -1, "food.yaml"},
 	{[]string{"lint", "log.yaml"}, -1, 0, "log.yaml"},
+	{[]string{"lint", "--silent", "food.yaml"}, 0, -1, "food.yaml"},
+	{[]string{"lint", "-s", "log.yaml"}, -1, 0, "log.yaml"},
 }
 
 func c10Files(r *rand.Rand, small bool) (book, log string) {
@@ -461,7 +463,11 @@ func c10L1(c *core.Ctx) {
 				if cmd.lintFile == "log.yaml" {
 					f = v.l
 				}
-				args = append([]string{"--no-color", "lint"}, f)
+				args = []string{"--no-color", "lint"}
+				if len(cmd.args) == 3 {
+					args = append(args, cmd.args[1])
+				}
+				args = append(args, f)
 			}
 			res := run.Exec(c.HR, args, run.ExecOpts{Dir: dir})
 			c.Eval(1)
@@ -504,7 +510,11 @@ func c10L1(c *core.Ctx) {
 				}
 				args := append([]string{"--no-color", "-d", "bigbook.yaml", "-l", "biglog.yaml", "--today", "2021/02/01"}, cmd.args...)
 				if cmd.lintFile != "" {
-					args = []string{"--no-color", "lint", target}
+					args = []string{"--no-color", "lint"}
+					if len(cmd.args) == 3 {
+						args = append(args, cmd.args[1])
+					}
+					args = append(args, target)
 				}
 				prefix := []string{"strace", "-f", "-o", "/dev/null", "-P", filepath.Join(dir, target), "-e", "trace=read", "-e", fmt.Sprintf("inject=read:error=EIO:when=%d+", when)}
 				res := run.Exec(c.HR, args, run.ExecOpts{Dir: dir, Prefix: prefix, Timeout: 60 * time.Second})
